@@ -40,6 +40,8 @@ def make_schema(r):
             Opt('booll', b'bl', 0, None), Opt('fltl', b'fl', 0, b'{0.5}'),
             Opt('sec', b'sec', 0, None, sub), Opt('sec', b'm', F['MULTI'], None, sub),
             Opt('sec', b't', F['MULTI'] | F['TITLE'], None, sub), Opt('sec', b'kv', F['KEYSTRVAL'], None, []),
+            # deprecated (not dropped) options are stored, so they are printed and read back like any other
+            Opt('int', b'dep', F['DEPRECATED'], 3), Opt('strl', b'depl', F['DEPRECATED'], b'{o1}'),
             # a titled section that is not multi exists from cfg_init on, without a title
             Opt('sec', b'ts', F['TITLE'], None, [Opt('int', b'a', 0, 1), Opt('sec', b'tt', F['TITLE'], None, [Opt('str', b'ws', 0, None)])])]
 
@@ -88,6 +90,8 @@ def rand_setters(r):
             out.append('setlist 0 %s int' % hx(b'il'))
         elif c == 5:
             out.append('setfloat 0 %s %s 0' % (hx(b'f'), struct.pack('>d', r.pick([1e300, -1e-300, 0.1, 2.0 ** 52, 1 / 3, float('inf'), float('-inf'), 1.7976931348623157e308, 5e-324])).hex()))
+        elif c == 7 and r.chance(1, 2):
+            out.append(r.pick(['setint 0 %s 7 0' % hx(b'dep'), 'addlist 0 %s str %s %s' % (hx(b'depl'), hx(b'o2'), hx(s)), 'parse_buf 0 ' + hx(b'dep = 9\ndepl += {x}\n')]))
         elif c == 6 and r.chance(1, 2):
             out.append('addlist 0 %s float %s' % (hx(b'fl'), struct.pack('>d', r.pick([float('inf'), float('-inf'), 2.5])).hex()))
         elif c == 6:
